@@ -81,29 +81,30 @@ func (s *syncStore[H]) Append(ctx context.Context, headers ...H) error {
 	for len(rest) > 0 && rest[0].Height() < head.Height() {
 		rest = rest[1:]
 	}
-	if len(rest) > 0 {
-		for _, h := range rest {
-			if h.Height() == head.Height() && bytes.Equal(h.Hash(), head.Hash()) {
-				// the head itself again (e.g. the last header of a requested range that a
-				// concurrent append has stored meanwhile): nothing new to check
-				continue
+	for _, h := range rest {
+		if h.Height() == head.Height() && bytes.Equal(h.Hash(), head.Hash()) {
+			// the head itself again (e.g. the last header of a requested range that a
+			// concurrent append has stored meanwhile): nothing new to check
+			continue
+		}
+		if h.Height() != head.Height()+1 {
+			return &errNonAdjacent{
+				Head:      head.Height(),
+				Attempted: h.Height(),
 			}
-			if h.Height() != head.Height()+1 {
-				return &errNonAdjacent{
-					Head:      head.Height(),
-					Attempted: h.Height(),
-				}
-			}
-
-			head = h
 		}
 
-		s.head.Store(&head)
+		head = h
 	}
 
 	if err := s.Store.Append(ctx, headers...); err != nil {
+		// head stays where it was: the headers did not reach the store,
+		// so the next ones have to continue from the old head
 		return err
 	}
 
+	if len(rest) > 0 {
+		s.head.Store(&head)
+	}
 	return nil
 }
